@@ -2,6 +2,7 @@ package harness
 
 import (
 	"fmt"
+	"reflect"
 	"runtime/debug"
 	"strings"
 	"time"
@@ -9,6 +10,7 @@ import (
 	sigkeeper "github.com/chain4energy/c4e-chain/x/cfesignature/keeper"
 	sigtypes "github.com/chain4energy/c4e-chain/x/cfesignature/types"
 	"github.com/cosmos/cosmos-sdk/client/tx"
+	"github.com/cosmos/cosmos-sdk/codec"
 	sdk "github.com/cosmos/cosmos-sdk/types"
 	sdkerrors "github.com/cosmos/cosmos-sdk/types/errors"
 	"github.com/cosmos/cosmos-sdk/types/tx/signing"
@@ -132,6 +134,37 @@ func (w *World) handler(msg sdk.Msg) func(ctx sdk.Context, msg sdk.Msg) (*sdk.Re
 	return nil
 }
 
+// Wire passes a message through the protobuf encoding a transaction carries (marshal, unmarshal,
+// UnpackInterfaces): what a handler sees on chain is the decoded form (e.g. an empty repeated
+// field arrives as nil). A message that cannot be encoded is returned unchanged.
+func (w *World) Wire(msg sdk.Msg) (out sdk.Msg) {
+	out = msg
+	defer func() {
+		if r := recover(); r != nil {
+			out = msg
+		}
+	}()
+	pm, ok := msg.(codec.ProtoMarshaler)
+	if !ok {
+		return msg
+	}
+	bz, err := w.App.AppCodec().Marshal(pm)
+	if err != nil {
+		return msg
+	}
+	fresh, ok := reflect.New(reflect.TypeOf(msg).Elem()).Interface().(codec.ProtoMarshaler)
+	if !ok {
+		return msg
+	}
+	if err := w.App.AppCodec().Unmarshal(bz, fresh); err != nil {
+		return msg
+	}
+	if m, ok := fresh.(sdk.Msg); ok {
+		return m
+	}
+	return msg
+}
+
 // ExecOpts controls how a message is run in mode A.
 type ExecOpts struct {
 	// Ante emulates what the real ante handler persists even when the message fails:
@@ -147,6 +180,7 @@ type ExecOpts struct {
 // persist only if it returned no error and did not panic.
 func (w *World) ExecMsg(ctx sdk.Context, msg sdk.Msg, o ExecOpts) (next sdk.Context, out Outcome) {
 	cc := Branch(ctx)
+	msg = w.Wire(msg)
 	if !o.SkipValidateBasic {
 		var vbErr error
 		func() {
@@ -370,6 +404,7 @@ func (n *Node) DeliverTxBytes(bz []byte, msg sdk.Msg) Outcome {
 // exists on that path in SDK 0.46, so a panic is reported as such.
 func (n *Node) GovExec(msg sdk.Msg) (out Outcome) {
 	ctx := n.Ctx()
+	msg = n.Wire(msg)
 	h := n.handler(msg)
 	if h == nil {
 		return Outcome{Class: Err, Codespace: sdkerrors.RootCodespace, Code: sdkerrors.ErrUnknownRequest.ABCICode()}
